@@ -87,6 +87,16 @@ func (s *Sim) SendTx(acc *Account, tag string, msgs ...sdk.Msg) *TxSpec {
 			}
 			t.Tag += "+gasstarve"
 			s.Stats.Inc("fault/gas_limit_drawn_low", 1)
+			// half of the time: the exact cut instead (gascut.go) - the limit falls <delta> gas units
+			// short of what the messages need on the state they meet; log-uniform delta, so the very
+			// last charges of a handler are hit as often as its middle
+			if r.IntN(2) == 0 {
+				t.Gas = defaultGas
+				delta := int64(math.Exp(r.Float64() * math.Log(1e6)))
+				t.Memo = gasCutMemo(delta)
+				t.Tag = strings.TrimSuffix(t.Tag, "+gasstarve") + "+gascut"
+				s.Stats.Inc("fault/gas_cut_exact", 1)
+			}
 		}
 	}
 	if q := s.Cfg.Faults.StaleSeq; q > 0 && r.Float64() < q {
